@@ -1,7 +1,7 @@
 ----------------------------- MODULE Fn_Parsers -----------------------------
 (***************************************************************************)
 (* C49: grammars and denotations of the user-supplied values restic        *)
-(* parses: durations (--keep-within*), byte sizes, policy counts,          *)
+(* parses: durations (keep-within options), byte sizes, policy counts,    *)
 (* extended options (-o key=value) and check subsets (--read-data-subset). *)
 (*                                                                         *)
 (* Numbers are digit strings (TLC integers are 32 bit): the model returns  *)
@@ -48,6 +48,7 @@ MinI64Abs == "9223372036854775808"
 MaxI32 == "2147483647"
 MinI32Abs == "2147483648"
 MaxU32 == "4294967295"
+MaxU64 == "18446744073709551615"
 \* floor((2^63 - 1) / 2^k)
 MaxForExp(k) == CASE k = 0 -> MaxI64 [] k = 10 -> "9007199254740991" [] k = 20 -> "8796093022207"
                   [] k = 30 -> "8589934591" [] k = 40 -> "8388607"
@@ -208,14 +209,17 @@ OptApplyExpect(key, value) ==
                          ELSE IF value \in BoolFalse THEN [v |-> "ok", val |-> "false"] ELSE Reject
     [] ft = "int"     -> LET sg == Signed(value) IN
                          IF ~sg.ok THEN (IF value = "" \/ \A i \in 1..Len(value) : Ch(value, i) \in {" ", "-", "+", ".", "/", "%"} THEN Reject ELSE [v |-> "open", val |-> "?"])
-                         ELSE IF ~(IF sg.sign = "-" THEN NumLE(sg.mag, MinI32Abs) ELSE NumLE(sg.mag, MaxI32)) THEN Reject
+                         ELSE IF ~(IF sg.sign = "-" THEN NumLE(sg.mag, MinI64Abs) ELSE NumLE(sg.mag, MaxI64)) THEN Reject
                          ELSE IF sg.sign = "+" \/ ~PlainDec(sg.mag, IF sg.sign = "" THEN value ELSE From(value, 2)) THEN [v |-> "open", val |-> "?"]
+                         \* the option is documented as an int: 32 bits are guaranteed, wider values may be refused
+                         ELSE IF ~(IF sg.sign = "-" THEN NumLE(sg.mag, MinI32Abs) ELSE NumLE(sg.mag, MaxI32)) THEN [v |-> "open", val |-> Dec(sg.sign, sg.mag)]
                          ELSE [v |-> "ok", val |-> Dec(sg.sign, sg.mag)]
     [] ft = "uint"    -> LET sg == Signed(value) IN
                          IF ~sg.ok THEN (IF value = "" \/ \A i \in 1..Len(value) : Ch(value, i) \in {" ", "-", "+", ".", "/", "%"} THEN Reject ELSE [v |-> "open", val |-> "?"])
                          ELSE IF sg.sign = "-" /\ sg.mag # "0" THEN Reject
-                         ELSE IF ~NumLE(sg.mag, MaxU32) THEN Reject
+                         ELSE IF ~NumLE(sg.mag, MaxU64) THEN Reject
                          ELSE IF sg.sign # "" \/ ~PlainDec(sg.mag, value) THEN [v |-> "open", val |-> "?"]
+                         ELSE IF ~NumLE(sg.mag, MaxU32) THEN [v |-> "open", val |-> sg.mag]
                          ELSE [v |-> "ok", val |-> sg.mag]
     [] ft = "duration" -> IF \E p \in DurLits : p[1] = value THEN [v |-> "ok", val |-> (CHOOSE p \in DurLits : p[1] = value)[2]]
                           ELSE IF value \in DurBad THEN Reject ELSE [v |-> "open", val |-> "?"]
@@ -223,7 +227,8 @@ OptApplyExpect(key, value) ==
 OptApplyRecOK(r) ==
   LET e == OptApplyExpect(r.key, r.value) IN
   CASE e.v = "reject" -> r.out = "reject" /\ r.field = ""
-    [] e.v = "open"   -> r.out \in {"reject", "ok"} /\ r.field \in {"", r.key}
+    [] e.v = "open"   -> \/ r.out = "reject" /\ r.field = ""
+                         \/ r.out = "ok" /\ r.field \in {"", r.key} /\ (e.val = "?" \/ (r.field = r.key /\ r.val = e.val))
     [] e.v = "ok"     -> r.out = "ok" /\ r.field = r.key /\ r.val = e.val
 
 (* ----------------------------------------------------------------------- *)
